@@ -10,6 +10,7 @@ import StirVerif.C20.ProofsDescentModel
 import StirVerif.C20.ProofsGeoClass
 import StirVerif.C20.ProofsGeoStructure
 import StirVerif.C20.ProofsDetPair
+import StirVerif.C20.ProofsDetPairDescent
 import StirVerif.C20.ProofsNoModel
 /-!
 # C20 — component-based normalisation: data conversions are lossless, ML steps descend.  Property theorems.
@@ -24,8 +25,9 @@ The descent of the efficiency iteration (§6) is proved twice: abstractly, for a
 (`C20_eff_iteration_descends_on_model`, by the refinement `ProofsDescentModel.lean`: the in-place detector loop of `iterateEff`
 is the abstract sweep, `klPairs` is half the abstract objective).  The fixed point of the geometric factors (§5,
 `C20_geo_fixed_point`) rests on the class structure of the index maps of `make_geo_data` and `apply_geo_norm`
-(`C20_geo_class_structure`, `ProofsGeoFold/Class/Orbit/Mirror/Structure.lean`).  §7 states the conversion, apply/un-apply and
-fixed-point clauses for the two-dimensional `DetPairData` family (one sinogram pair), §8 shows that the "version without model" of
+(`C20_geo_class_structure`, `ProofsGeoFold/Class/Orbit/Mirror/Structure.lean`).  §7 states the conversion, apply/un-apply,
+fixed-point and descent clauses for the two-dimensional `DetPairData` family (one sinogram pair; the descent by refinement to the
+one-ring `FanProjData` model, `ProofsDetPairDescent.lean`), §8 shows that the "version without model" of
 `iterate_efficiencies` / `make_fan_sum_data` is the version with the model of ones, so that the fixed-point and descent theorems
 of §5–§6 apply to it.  Nothing in this file is stated without proof.
 -/
@@ -564,6 +566,50 @@ half block, its translation by one block `(5, 9)`, its mirror image in the ring 
 all use the geometric factor `[1][5]` -/
 example : dpGeoIndex ⟨8, 2⟩ 2 1 5 = (1, 5) ∧ dpGeoIndex ⟨8, 2⟩ 2 5 9 = (1, 5) ∧ dpGeoIndex ⟨8, 2⟩ 2 6 2 = (1, 5) ∧
     dpGeoIndex ⟨8, 2⟩ 2 2 6 = (1, 5) := by decide
+
+/-- *"every efficiency iteration leaves the Kullback-Leibler distance between symmetric data and the product model no larger than
+before"* — the `DetPairData` overload `iterate_efficiencies(Array<1,float>&, fan sums, const DetPairData& model)`: the distance summed
+once per detector pair (`dpKLPairs`: the entries `(a,b)` of the loop nest with `a < b % N`) between the data and `ε_a ε_b m_ab`
+(`apply_efficiencies` on the model) does not increase, for every `DetPairData` geometry with a fan smaller than the ring.  Hypotheses:
+non-negative data and positive model on every entry, data and model symmetric (`(a,b)` and `(b,a)`: segment 0), positive efficiencies,
+every detector has a positive fan sum.
+Proof (`ProofsDetPairDescent.lean`): refinement to `C20_eff_iteration_descends_on_model` on the `FanProjData` geometry of one ring
+`⟨1, N, 0, h⟩` — the loop nests are the same lists of index tuples (`ring_canon`), and for fan data `F` holding the detector-pair data
+`P` (`Rep`) the denominators, fan sums, in-place sweeps (`rep_iterateEff`: the same table), `apply_efficiencies` (`rep_applyEff`) and the
+Kullback-Leibler sums (`rep_klPairs`) coincide.  (The library's `KL(const DetPairData&, …)`, `dpKL`, visits `(a,b)` and `(b,a)`: for
+symmetric data it is twice this sum — checked on the implementation by the oracle `dp-kl-descent`, not stated here.) -/
+theorem C20_dp_eff_iteration_descends {dp : DPDims} (wf : dp.WF) (data model : Fan ℝ) (eff : Tab ℝ)
+    (hpos : ∀ c ∈ dp.canon, 0 ≤ data.get c ∧ 0 < model.get c)
+    (hsym : ∀ a b, dp.inData a b → data.at2 dp a b = data.at2 dp b a ∧ model.at2 dp a b = model.at2 dp b a)
+    (heff : ∀ a, 0 ≤ a → a ≤ dp.N - 1 → 0 < eff.get (0, a) ∧ 0 < (dpMakeFanSums dp data).get (0, a)) :
+    dpKLPairs Real.log dp data (dpApplyEff dp model (dpIterateEff dp eff (dpMakeFanSums dp data) model) true) 0 ≤
+      dpKLPairs Real.log dp data (dpApplyEff dp model eff true) 0 :=
+  dpIterateEff_descends wf data model eff hpos hsym heff
+
+/-- The refinement behind it: for one-ring fan data `F` holding the detector-pair data `P`, `iterate_efficiencies` on `FanProjData`
+and on `DetPairData` compute the same table (fan sums that agree on the detectors), `apply_efficiencies` keeps the representation and
+the once-per-pair Kullback-Leibler sums agree. -/
+theorem C20_dp_is_one_ring_fan {dp : DPDims} (wf : dp.WF) {P F : Fan ℝ} (hrep : Rep dp P F) (eff sums : Tab ℝ) :
+    iterateEff dp.ring eff sums F = dpIterateEff dp eff sums P ∧ Rep dp (dpApplyEff dp P eff true) (applyEff dp.ring F eff true) ∧
+      (∀ a, 0 ≤ a ∧ a ≤ dp.N - 1 → (makeFanSums dp.ring F).get (0, a) = (dpMakeFanSums dp P).get (0, a)) ∧
+      ∀ {P2 F2 : Fan ℝ}, Rep dp P2 F2 → klPairs Real.log dp.ring F F2 0 = dpKLPairs Real.log dp P P2 0 :=
+  ⟨rep_iterateEff wf hrep eff sums sums (fun _ _ => rfl), rep_applyEff wf hrep eff, fun _ ha => rep_makeFanSums wf hrep ha,
+    fun h2 => rep_klPairs wf hrep h2 Real.log 0⟩
+
+/-- hypotheses of `C20_dp_eff_iteration_descends` are satisfiable: 8 detectors, half fan 2, data 3, model 2, efficiencies 1/2 -/
+example : ∃ (data model : Fan ℝ) (eff : Tab ℝ), (⟨8, 2⟩ : DPDims).WF ∧
+    (∀ c ∈ (⟨8, 2⟩ : DPDims).canon, 0 ≤ data.get c ∧ 0 < model.get c) ∧
+    (∀ a b, (⟨8, 2⟩ : DPDims).inData a b →
+      data.at2 ⟨8, 2⟩ a b = data.at2 ⟨8, 2⟩ b a ∧ model.at2 ⟨8, 2⟩ a b = model.at2 ⟨8, 2⟩ b a) ∧
+    (∀ a, 0 ≤ a → a ≤ (⟨8, 2⟩ : DPDims).N - 1 → 0 < eff.get (0, a) ∧ 0 < (dpMakeFanSums ⟨8, 2⟩ data).get (0, a)) := by
+  have wf : (⟨8, 2⟩ : DPDims).WF := by decide
+  have hdata : ∀ c ∈ (⟨8, 2⟩ : DPDims).canon, 0 < (dpConst ⟨8, 2⟩ 3).get c := fun c hc => by rw [dpConst_get _ _ hc]; norm_num
+  refine ⟨dpConst _ 3, dpConst _ 2, Tab.const ⟨1, 8, 0, 2⟩ (1 / 2), wf, fun c hc => ⟨(hdata c hc).le, by rw [dpConst_get _ _ hc]; norm_num⟩,
+    fun a b h => ?_, fun a h0 h1 => ⟨?_, dpMakeFanSums_pos wf _ hdata ⟨h0, h1⟩⟩⟩
+  · rw [dpConst_at2 wf _ h, dpConst_at2 wf _ (dpInData_symm wf h), dpConst_at2 wf _ h, dpConst_at2 wf _ (dpInData_symm wf h)]
+    exact ⟨rfl, rfl⟩
+  · rw [Tab.const_get ⟨1, 8, 0, 2⟩ _ (mem_dets.2 ⟨⟨le_refl _, by show (0 : Int) ≤ 1 - 1; decide⟩, ⟨h0, h1⟩⟩)]
+    norm_num
 
 /-! ## 8. The versions without model -/
 
